@@ -593,7 +593,7 @@ def main(ctx):
     # the two families added in round 3 (service calls, callback tables of every kind of callable): fewer
     # crash-point re-runs per base scenario
     extra = {"call": ctx.pick(2, 30), "cbtable": ctx.pick(2, 30)}
-    caps = {"graph": cap, "call": ctx.pick(3, 40), "cbtable": ctx.pick(1, 10), "cbexit": ctx.pick(1, 10)}
+    caps = {"graph": cap, "call": ctx.pick(3, 40), "cbtable": ctx.pick(1, 10), "cbexit": ctx.pick(1, 6)}
     njobs = 12
     scns = []
     for j in range(njobs):
@@ -607,7 +607,7 @@ def main(ctx):
                                          idx=len(scns)))
     # round 4 family, from a random stream of its own (the scenarios of the earlier families stay what they were)
     r4 = random.Random(ctx.seed + 4)
-    nexit = ctx.pick(2, 30) * njobs
+    nexit = ctx.pick(2, 15) * njobs
     scns += [gen_scenario(r4, "%s/cbexit%d" % ("m" if k % 2 else "u", k), k % 2 == 1, "cbexit", idx=k) for k in range(nexit)]
     jobs = [{"scns": scns[j::njobs], "seed": ctx.seed * 100 + j, "cap": cap, "caps": caps} for j in range(njobs)]
     jobs[0]["scns"] = witnesses() + jobs[0]["scns"]
